@@ -200,6 +200,7 @@ def viscosity_of_water(temperature, molarity_nacl=None, pressure=None):
     temperature = np.atleast_1d(temperature)
     if pressure or molarity_nacl:
         pressure = 0.101325 if pressure is None else pressure
+        molarity_nacl = 0.0 if molarity_nacl is None else molarity_nacl
         viscosities = []
         for t in temperature:
             molality_nacl = molarity_to_molality(
